@@ -251,8 +251,8 @@ func (fst *FSTree) queryExecutor(walkRoot string, queryIter *iterator.Iterator, 
 			return nil
 		}
 
-		// check if matches, then send
-		if q.MatchesRecord(r) {
+		// check if matches (key prefix and conditions), then send
+		if q.Matches(r) {
 			select {
 			case queryIter.Next <- r:
 			case <-queryIter.Done:
